@@ -217,7 +217,7 @@ func (e *encoderBincBytes) kArrayWMbs(rv reflect.Value, ti *typeInfo, isSlice bo
 	e.mapStart(l >> 1)
 
 	var fn *encFnBincBytes
-	builtin := ti.tielem.flagEncBuiltin
+	builtin := e.builtinElem(ti.tielem, ti.elemkind)
 	if !builtin {
 		fn = e.kSeqFn(ti.elem)
 	}
@@ -262,14 +262,14 @@ func (e *encoderBincBytes) kArrayW(rv reflect.Value, ti *typeInfo, isSlice bool)
 	e.arrayStart(l)
 
 	var fn *encFnBincBytes
-	if !ti.tielem.flagEncBuiltin {
+	builtin := e.builtinElem(ti.tielem, ti.elemkind)
+	if !builtin {
 		fn = e.kSeqFn(ti.elem)
 	}
 
 	j := 0
 	e.c = containerArrayElem
 	e.e.WriteArrayElem(true)
-	builtin := ti.tielem.flagEncBuiltin
 	for {
 		rvv := rvArrayIndex(rv, j, ti, isSlice)
 		if builtin {
@@ -407,7 +407,7 @@ func (e *encoderBincBytes) kStructSimple(f *encFnInfo, rv reflect.Value) {
 		for j, si = range tisfi {
 			e.c = containerArrayElem
 			e.e.WriteArrayElem(j == 0)
-			if si.encBuiltin {
+			if e.builtinField(si) {
 				e.encodeIB(rv2i(si.fieldNoAlloc(rv, true)))
 			} else {
 				e.encodeValue(si.fieldNoAlloc(rv, !chkCirRef), nil)
@@ -429,7 +429,7 @@ func (e *encoderBincBytes) kStructSimple(f *encFnInfo, rv reflect.Value) {
 			e.e.WriteMapElemKey(j == 0)
 			e.e.EncodeStringNoEscape4Json(si.encName)
 			e.mapElemValue()
-			if si.encBuiltin {
+			if e.builtinField(si) {
 				e.encodeIB(rv2i(si.fieldNoAlloc(rv, true)))
 			} else {
 				e.encodeValue(si.fieldNoAlloc(rv, !chkCirRef), nil)
@@ -483,7 +483,7 @@ func (e *encoderBincBytes) kStruct(f *encFnInfo, rv reflect.Value) {
 					continue
 				}
 			} else {
-				kv.r = si.fieldNoAlloc(rv, si.encBuiltin || !chkCirRef)
+				kv.r = si.fieldNoAlloc(rv, !chkCirRef || e.builtinField(si))
 			}
 			kv.v = si
 			fkvs[newlen] = kv
@@ -517,7 +517,7 @@ func (e *encoderBincBytes) kStruct(f *encFnInfo, rv reflect.Value) {
 			for j = 0; j < newlen; j++ {
 				kv = fkvs[j]
 				mf2w[j] = encStructFieldObj{kv.v.encName, kv.r, nil, true,
-					!kv.v.encNameEscape4Json, kv.v.encBuiltin}
+					!kv.v.encNameEscape4Json, e.builtinField(kv.v)}
 			}
 			for _, v := range mf2s {
 				mf2w[j] = encStructFieldObj{v.v, reflect.Value{}, v.i, false, false, false}
@@ -558,7 +558,7 @@ func (e *encoderBincBytes) kStruct(f *encFnInfo, rv reflect.Value) {
 					e.kStructFieldKey(keytyp, kv.v.encName)
 				}
 				e.mapElemValue()
-				if kv.v.encBuiltin {
+				if e.builtinField(kv.v) {
 					e.encodeIB(rv2i(baseRVRV(kv.r)))
 				} else {
 					e.encodeValue(kv.r, nil)
@@ -590,7 +590,7 @@ func (e *encoderBincBytes) kStruct(f *encFnInfo, rv reflect.Value) {
 					kv.r = reflect.Value{}
 				}
 			} else {
-				kv.r = si.fieldNoAlloc(rv, si.encBuiltin || !chkCirRef)
+				kv.r = si.fieldNoAlloc(rv, !chkCirRef || e.builtinField(si))
 			}
 			kv.v = si
 			fkvs[i] = kv
@@ -608,7 +608,7 @@ func (e *encoderBincBytes) kStruct(f *encFnInfo, rv reflect.Value) {
 			kv = fkvs[j]
 			if !kv.r.IsValid() {
 				e.e.EncodeNil()
-			} else if kv.v.encBuiltin {
+			} else if e.builtinField(kv.v) {
 				e.encodeIB(rv2i(baseRVRV(kv.r)))
 			} else {
 				e.encodeValue(kv.r, nil)
@@ -674,8 +674,8 @@ func (e *encoderBincBytes) kMap(f *encFnInfo, rv reflect.Value) {
 	var it mapIter
 	mapRange(&it, rv, rvk, rvv, true)
 
-	kbuiltin := f.ti.tikey.flagEncBuiltin
-	vbuiltin := f.ti.tielem.flagEncBuiltin
+	kbuiltin := e.builtinElem(f.ti.tikey, f.ti.keykind)
+	vbuiltin := e.builtinElem(f.ti.tielem, f.ti.elemkind)
 	for j := 0; it.Next(); j++ {
 		rv = it.Key()
 		e.c = containerMapKey
@@ -4353,7 +4353,7 @@ func (e *encoderBincIO) kArrayWMbs(rv reflect.Value, ti *typeInfo, isSlice bool)
 	e.mapStart(l >> 1)
 
 	var fn *encFnBincIO
-	builtin := ti.tielem.flagEncBuiltin
+	builtin := e.builtinElem(ti.tielem, ti.elemkind)
 	if !builtin {
 		fn = e.kSeqFn(ti.elem)
 	}
@@ -4398,14 +4398,14 @@ func (e *encoderBincIO) kArrayW(rv reflect.Value, ti *typeInfo, isSlice bool) {
 	e.arrayStart(l)
 
 	var fn *encFnBincIO
-	if !ti.tielem.flagEncBuiltin {
+	builtin := e.builtinElem(ti.tielem, ti.elemkind)
+	if !builtin {
 		fn = e.kSeqFn(ti.elem)
 	}
 
 	j := 0
 	e.c = containerArrayElem
 	e.e.WriteArrayElem(true)
-	builtin := ti.tielem.flagEncBuiltin
 	for {
 		rvv := rvArrayIndex(rv, j, ti, isSlice)
 		if builtin {
@@ -4543,7 +4543,7 @@ func (e *encoderBincIO) kStructSimple(f *encFnInfo, rv reflect.Value) {
 		for j, si = range tisfi {
 			e.c = containerArrayElem
 			e.e.WriteArrayElem(j == 0)
-			if si.encBuiltin {
+			if e.builtinField(si) {
 				e.encodeIB(rv2i(si.fieldNoAlloc(rv, true)))
 			} else {
 				e.encodeValue(si.fieldNoAlloc(rv, !chkCirRef), nil)
@@ -4565,7 +4565,7 @@ func (e *encoderBincIO) kStructSimple(f *encFnInfo, rv reflect.Value) {
 			e.e.WriteMapElemKey(j == 0)
 			e.e.EncodeStringNoEscape4Json(si.encName)
 			e.mapElemValue()
-			if si.encBuiltin {
+			if e.builtinField(si) {
 				e.encodeIB(rv2i(si.fieldNoAlloc(rv, true)))
 			} else {
 				e.encodeValue(si.fieldNoAlloc(rv, !chkCirRef), nil)
@@ -4619,7 +4619,7 @@ func (e *encoderBincIO) kStruct(f *encFnInfo, rv reflect.Value) {
 					continue
 				}
 			} else {
-				kv.r = si.fieldNoAlloc(rv, si.encBuiltin || !chkCirRef)
+				kv.r = si.fieldNoAlloc(rv, !chkCirRef || e.builtinField(si))
 			}
 			kv.v = si
 			fkvs[newlen] = kv
@@ -4653,7 +4653,7 @@ func (e *encoderBincIO) kStruct(f *encFnInfo, rv reflect.Value) {
 			for j = 0; j < newlen; j++ {
 				kv = fkvs[j]
 				mf2w[j] = encStructFieldObj{kv.v.encName, kv.r, nil, true,
-					!kv.v.encNameEscape4Json, kv.v.encBuiltin}
+					!kv.v.encNameEscape4Json, e.builtinField(kv.v)}
 			}
 			for _, v := range mf2s {
 				mf2w[j] = encStructFieldObj{v.v, reflect.Value{}, v.i, false, false, false}
@@ -4694,7 +4694,7 @@ func (e *encoderBincIO) kStruct(f *encFnInfo, rv reflect.Value) {
 					e.kStructFieldKey(keytyp, kv.v.encName)
 				}
 				e.mapElemValue()
-				if kv.v.encBuiltin {
+				if e.builtinField(kv.v) {
 					e.encodeIB(rv2i(baseRVRV(kv.r)))
 				} else {
 					e.encodeValue(kv.r, nil)
@@ -4726,7 +4726,7 @@ func (e *encoderBincIO) kStruct(f *encFnInfo, rv reflect.Value) {
 					kv.r = reflect.Value{}
 				}
 			} else {
-				kv.r = si.fieldNoAlloc(rv, si.encBuiltin || !chkCirRef)
+				kv.r = si.fieldNoAlloc(rv, !chkCirRef || e.builtinField(si))
 			}
 			kv.v = si
 			fkvs[i] = kv
@@ -4744,7 +4744,7 @@ func (e *encoderBincIO) kStruct(f *encFnInfo, rv reflect.Value) {
 			kv = fkvs[j]
 			if !kv.r.IsValid() {
 				e.e.EncodeNil()
-			} else if kv.v.encBuiltin {
+			} else if e.builtinField(kv.v) {
 				e.encodeIB(rv2i(baseRVRV(kv.r)))
 			} else {
 				e.encodeValue(kv.r, nil)
@@ -4810,8 +4810,8 @@ func (e *encoderBincIO) kMap(f *encFnInfo, rv reflect.Value) {
 	var it mapIter
 	mapRange(&it, rv, rvk, rvv, true)
 
-	kbuiltin := f.ti.tikey.flagEncBuiltin
-	vbuiltin := f.ti.tielem.flagEncBuiltin
+	kbuiltin := e.builtinElem(f.ti.tikey, f.ti.keykind)
+	vbuiltin := e.builtinElem(f.ti.tielem, f.ti.elemkind)
 	for j := 0; it.Next(); j++ {
 		rv = it.Key()
 		e.c = containerMapKey
